@@ -1,7 +1,7 @@
 (* Entry points evaluated by the extracted driver: one harness case -> one report line. *)
 From Coq Require Import Ascii String.
 From Coq Require Import List NArith ZArith QArith Bool Arith.
-From V Require Import Str Num Tok Tables Items Read Decode Bytes WellFormed Doc Case Paginate Pipeline Document TextSpec Checks.
+From V Require Import Str Num Tok Tables Items Read Decode Bytes WellFormed Doc Case Paginate Pipeline Document TextSpec Checks Validate.
 Import ListNotations.
 Local Open Scope string_scope.
 Local Open Scope list_scope.
@@ -283,8 +283,54 @@ Definition run_dbg (id : str) (d : doc) : str :=
   | _ => line [kv "id" id; kv "dbg" (s2l "single only")]
   end.
 
+(* C19: ([c19] [id] [kind] (values)) -> does construction accept the value? *)
+Definition dRaw : dec rawv := fun e =>
+  match e with
+  | SList [t; x] =>
+    match dZ t with
+    | Some 0%Z => option_map RStr (dStr x)
+    | Some 1%Z => option_map RNum (dQ x)
+    | _ => None
+    end
+  | _ => None
+  end.
+
+Definition kind_of (name : str) : option vkind :=
+  assoc name [(s2l "border", KBorder); (s2l "color", KColor); (s2l "font", KFont); (s2l "format", KFormat);
+              (s2l "just", KJust); (s2l "rowjust", KRowJust); (s2l "vert", KVert); (s2l "orient", KOrient); (s2l "place", KPlace);
+              (s2l "positive", KPositive); (s2l "pageby_row", KPagebyRow); (s2l "fig_align", KFigAlign);
+              (s2l "fig_pos", KFigPos)].
+
+Definition run_c19 (id kind : str) (vals : sexp) : str :=
+  match dList dRaw vals with
+  | None => line [kv "id" id; kv "bad" (s2l "vals")]
+  | Some l =>
+    let nums := flat_map (fun v => match v with RNum q => [q] | _ => [] end) l in
+    let flag i := match nth_error nums i with Some q => negb (Qeq_bool q (0 # 1)) | None => false end in
+    let acc :=
+        match kind_of kind with
+        | Some k => Some (accepts k l)
+        | None =>
+          if str_eqb kind (s2l "margin") then Some (margin_ok nums)
+          else if str_eqb kind (s2l "new_page") then
+            Some (new_page_ok (if flag 0%nat then Some [] else None) (flag 1%nat))
+          else if str_eqb kind (s2l "content") then Some (content_ok (flag 0%nat) (flag 1%nat))
+          else if str_eqb kind (s2l "sections") then
+            Some (sections_ok (Z.to_nat (Qnum (nth 0%nat nums (0#1)))) (Z.to_nat (Qnum (nth 1%nat nums (0#1))))
+                              (match nth_error nums 2%nat with Some q => if Qle_bool 0 q then Some (Z.to_nat (Qnum q)) else None | None => None end))
+          else if str_eqb kind (s2l "columns") then Some (flag 0%nat)
+          else None
+        end in
+    match acc with
+    | Some b => line [kv "id" id; kv "accept" (bool_str b)]
+    | None => line [kv "id" id; kv "bad" (s2l "kind")]
+    end
+  end.
+
 Definition run_case' (e : sexp) : str :=
   match e with
+  | SList [SStr mode; SStr id; SStr kind; vals] =>
+    if str_eqb mode (s2l "c19") then run_c19 id kind vals else run_case e
   | SList [SStr mode; SStr id; de; impl; extra] =>
     match dDoc de with
     | Some d => if str_eqb mode (s2l "c10") then run_c10 id d impl extra
